@@ -329,6 +329,9 @@ def run_property(prop, tier, repo, mod, seed=0, write_evidence=True, quiet=False
         ctx = Ctx(prop, repo, tier, model)
         mod.run(ctx)
         for rule, minimum in getattr(mod, "FLOORS", {}).items():
+            # a floor guards against a rule passing vacuously; a rule that reports findings is not silent
+            if any(f.rule == rule or f.rule.startswith(rule + ".") for f in ctx.findings):
+                continue
             ctx.floor(rule, minimum)
     except AnalysisError as e:
         say(f"ANALYSIS-ERROR {e}")
